@@ -172,6 +172,25 @@ class Spec:
 R_RE = re.compile(r"^R (\d+) (.*) -> (.*)$")
 
 
+def _robust(arity):
+    """an oracle that cannot parse the library's output reports that as a failure (tag `malformed`,
+    relevant to every property using the suite) instead of crashing the check: output of an
+    unexpected shape means an operation ended in a way no specification allows"""
+    def deco(fn):
+        def wrapped(*a, **kw):
+            try:
+                return fn(*a, **kw)
+            except (IndexError, ValueError, KeyError, AttributeError, TypeError) as e:
+                import traceback
+                where = traceback.extract_tb(e.__traceback__)[-1]
+                msg = f"library output of unexpected shape ({type(e).__name__}: {e} at oracle.py:{where.lineno} `{where.line}`)"
+                return [("malformed", msg)] if arity == 2 else [("malformed", 0, msg)]
+        wrapped.__name__ = fn.__name__
+        return wrapped
+    return deco
+
+
+@_robust(2)
 def seq_oracle(case_text, real_lines):
     """Replays a plain-mode case against the spec.  Returns a list of (tag, message).
     Tags: returns reads order sizes counts stats cas_exact staging_empty reopen_same open_clean
@@ -203,6 +222,7 @@ def seq_oracle(case_text, real_lines):
     obs_i = 0
     prev_state_obs = None
     last_state, dirty, after_open = None, True, False
+    held = {}
     for l in lines:
         t = l.split()
         if t[0] in ("cfg", "plant", "mkdir", "fault", "setsettings"):
@@ -257,6 +277,18 @@ def seq_oracle(case_text, real_lines):
             exp = spec.apply(t)
             if res != exp:
                 fails.append(("returns" if not res.startswith("err:") else "nofail", f"op {idx - 1} `{l}` returned {res}, expected {exp}"))
+        elif t[0] == "hold":
+            k = unhex(t[2])
+            if k in spec.m:
+                held[t[1]] = spec.m[k]
+                if res != "held":
+                    fails.append(("reads", f"op {idx - 1} `{l}` returned {res}, expected a reader"))
+            elif res != "none":
+                fails.append(("reads", f"op {idx - 1} `{l}` returned {res}, expected none"))
+        elif t[0] == "drain":
+            exp = ("bytes:" + show_content(held.pop(t[1]))) if t[1] in held else "none"
+            if res != exp:
+                fails.append(("reader_stable", f"op {idx - 1} `{l}`: a reader opened before later overwrites/removals streamed {res}, expected the original content {exp}"))
         elif t[0] in ("get", "size", "range", "reader", "iter", "riter", "blobs"):
             exp = spec.expect_read(t)
             if res != exp:
@@ -324,6 +356,7 @@ def spec_entries_map(spec):
     return {(k.hex() if k else "-"): (HASH(c), len(c)) for k, c in spec.m.items()}
 
 
+@_robust(3)
 def crash_oracle(case_text, real_lines):
     """returns list of (tag, k, message); tags: recover_open recover_state usable disk_wellformed
     disk_history cas_content scan_exact counts nofail"""
@@ -454,6 +487,47 @@ def crash_oracle(case_text, real_lines):
 # ---------------------------------------------------------------------------------------------
 # fault-all oracle (C14)
 
+def disk_blocks(real_lines, prefix="O "):
+    """the directory listings of a run, one list of lines per `obs`"""
+    blocks, cur = [], None
+    for l in real_lines:
+        if l.startswith(prefix + "entries:") or l.startswith(prefix + "closed"):
+            cur = []; blocks.append(cur)
+        elif l.startswith(prefix) and cur is not None:
+            cur.append(l)
+    return blocks
+
+
+def disk_wellformed(block, N, prefix="O "):
+    """C20's format clauses on one directory listing decoded by the harness's independent reader:
+    complete records only (+ at most one end marker), versions strictly increasing through the
+    whole log, each inside its segment's range, snapshot complete."""
+    out, segs = [], []
+    for l in block:
+        if l.startswith(prefix + "L "):
+            try:
+                segs.append(parse_L(l[len(prefix):]))
+            except Exception as e:
+                out.append(f"unparsable segment summary {l}: {e}")
+        elif l.startswith(prefix + "S index "):
+            snap = l[len(prefix + "S index "):]
+            if snap.startswith("bad") or snap.endswith("trailing"):
+                out.append(f"snapshot not complete: {snap}")
+    segs.sort()
+    prev = 0
+    for seg, recs, tail in segs:
+        if tail not in ("clean", "sentinel"):
+            out.append(f"segment {seg}: tail={tail} (incomplete or invalid record)")
+        for v, op in recs:
+            if v <= prev:
+                out.append(f"segment {seg}: version {v} not above previous {prev}")
+            if not (seg * N < v <= (seg + 1) * N):
+                out.append(f"segment {seg}: version {v} outside ({seg * N},{(seg + 1) * N}]")
+            prev = v
+    return out
+
+
+@_robust(2)
 def fault_oracle(case_text, real_lines, header):
     """One injected EIO.  Every op returns (no panic, no hang); keys outside the failed op keep
     exactly their content; keys of the failed op hold old or new; later reopen succeeds.
@@ -476,6 +550,10 @@ def fault_oracle(case_text, real_lines, header):
     stag = sorted({l.split()[2] for l in real_lines if l.startswith("O F staging/")})
     if stag and not fault_call.startswith("unlink staging/"):
         fails.append(("staging_leftover", f"{header}: staging files left behind {stag} (injected fault: {fault_call})"))
+    # the files on disk stay well-formed whatever call failed (C20's format clauses)
+    for bi, blk in enumerate(disk_blocks(real_lines)):
+        for msg in disk_wellformed(blk, int(cfg["n"])):
+            fails.append(("disk_wellformed", f"{header}: listing {bi} after injected fault `{fault_call}`: {msg}"))
     # possible values per key: set of contents (None = absent)
     poss = {}
     def cur(k):
@@ -542,6 +620,7 @@ def payload_len(op):
     return 1 + 4 + sum(4 + (0 if k == "-" else len(k) // 2) for k in ks)
 
 
+@_robust(3)
 def damage_oracle(case_text, real_lines):
     """every D line: the open fails with an error, or yields exactly the state after the longest
     undamaged prefix of the logged operations; never a panic, hang or crash.
@@ -601,6 +680,7 @@ def damage_oracle(case_text, real_lines):
 # ---------------------------------------------------------------------------------------------
 # settings gate oracle (C19)
 
+@_robust(2)
 def settings_oracle(case_text, real_lines):
     """an open whose configuration or stored version does not match must fail, and the obs block
     after it must equal the obs block before it; tags: gate_accepts gate_modifies"""
@@ -658,6 +738,7 @@ def settings_oracle(case_text, real_lines):
 # ---------------------------------------------------------------------------------------------
 # concurrent oracle (C04, C05, C07, C08, C15) on the REAL lines of a conc run
 
+@_robust(2)
 def conc_oracle(case_text, real_lines):
     """tags: dangling (C04/C08), read_atomic (C05), quiescent_exact (C07), stuck (C15), nofail"""
     fails = []
@@ -767,6 +848,7 @@ def conc_oracle(case_text, real_lines):
 # ---------------------------------------------------------------------------------------------
 # K9 oracle (C11): exclusive ownership, computed from the events alone
 
+@_robust(2)
 def race_oracle(case_text, real_lines):
     fails = []
     evs = [l[3:].split() for l in case_text.splitlines() if l.startswith("ev ")]
@@ -824,6 +906,7 @@ def race_oracle(case_text, real_lines):
 # ---------------------------------------------------------------------------------------------
 # orphan scan / clean-up oracle (C08) on plain-mode lines with planted garbage
 
+@_robust(2)
 def orphan_oracle(case_text, real_lines):
     """after every `open`: the reported lists equal what the directory listing (O F lines of the obs
     block BEFORE the open... we use the obs block right after the open, nothing changes in between)
